@@ -10,7 +10,7 @@ from vlib import treegen as tg
 
 BODIES = ["((a:1,b:2):0.5,(c:3,d:4):1.5)", "(a,(b,(c,d)x)y)", "((a,b),c,d)", "(d:1e-2,(c,(b,a)))", "((3,1),(2,4))", "(4:2,3:1,(2,1))"]
 ROOT_TOK = ["", "[&R] ", "[&U] "]
-WEIGHT_TOK = ["", "[&W 2] ", "[&W 0.5] "]
+WEIGHT_TOK = ["", "[&W 2] ", "[&W 0.5] ", "[&W 0] "]
 COMMENT_TOK = ["", "[a note] ", "[&k=1,m=\"v\"] "]
 TAXA = ["a", "b", "c", "d"]
 TRANSLATE = " TRANSLATE 1 d, 2 c, 3 b, 4 a;\n"
@@ -31,7 +31,7 @@ def statement(kw, i, numeric, aspect, varied):
     nb = len(BODIES) if numeric else 4
     b = BODIES[choose(kw["body0"], nb if aspect == "taxa" else 2)]
     rt = ROOT_TOK[choose(kw["rt0"], 3)] if aspect == "rooting" else ""
-    wt = WEIGHT_TOK[choose(kw["wt0"], 3)] if aspect == "weights" else ""
+    wt = WEIGHT_TOK[choose(kw["wt0"], len(WEIGHT_TOK))] if aspect == "weights" else ""
     ct = COMMENT_TOK[choose(kw["ct0"], 3)] if aspect == "comments" else ""
     return rt + wt + ct + b
 
@@ -178,6 +178,9 @@ def c13_routes(kw):
             return "TreeArray.read:edge-lengths-differ"
         if ta._tree_weights != ref._tree_weights:
             return "TreeArray.read:weights-differ"
+        # ... and the weights are those of the list (not only those of an array filled through the same add_tree)
+        if use_w and [float(w) for w in ta._tree_weights] != [float(t.weight) if t.weight is not None else 1.0 for t in allbase]:
+            return "TreeArray.read:weights-differ-from-the-tree-list"
         return True
     if route == "sources":
         d = os.path.join(os.path.dirname(os.path.dirname(os.path.abspath(__file__))), "scratch")
